@@ -94,7 +94,7 @@ TNewInstance ==
     /\ maxCost' = Ev.max /\ now' = Ev.now
     /\ store' = [i \in Idx |-> Nil] /\ em' = {} /\ costs' = [i \in Idx |-> Nil] /\ used' = 0
     /\ buf' = <<>> /\ clearQ' = 0 /\ proc' = IdleProc /\ cli' = [c \in Clients |-> IdleCli]
-    /\ closed' = FALSE /\ pol' = [alive |-> TRUE, closed |-> FALSE, q |-> 0] /\ stopQ' = 0 /\ wdone' = {}
+    /\ closed' = FALSE /\ pol' = [alive |-> TRUE, closed |-> FALSE, q |-> 0, handles |-> TRUE] /\ stopQ' = 0 /\ wdone' = {}
     /\ met' = ZeroMet /\ cbs' = <<>> /\ res' = Nil
     /\ outcnt' = [v \in Val |-> 0] /\ accepted' = {} /\ owner' = [v \in Val |-> Nil]
     /\ dropped' = {} /\ lost' = {} /\ slack' = 0 /\ errSeen' = FALSE /\ orphans' = {} /\ kf' = {} /\ gh' = GhInit
